@@ -138,6 +138,21 @@ def t_bin(op, a, b):
     raise OutOfReach(op)
 
 
+def t_cond(cond, t):
+    """If(cond, t, 0); distributes into symbolic sums (the condition must not mention their bound variables)"""
+    from .bigsum import SumExpr, Term
+    if _num(t) and t == 0:
+        return 0
+    if isinstance(t, SumExpr):
+        bound = {v.get_id() for x in t.terms for v in x.vars}
+        for v in sym._free_consts(cond):
+            if v.get_id() in bound:
+                raise OutOfReach("condition depends on a summation variable")
+        return SumExpr(t_cond(cond, t.plain), [Term(x.coef, x.vars, x.exts, x.hyps, t_cond(cond, x.body)) for x in t.terms])
+    real = _is_real(t) or True
+    return z3.If(cond, t_z3(t, True), z3.RealVal(0))
+
+
 def t_neg(a):
     from .bigsum import SumExpr
     if isinstance(a, SumExpr):
